@@ -24,6 +24,8 @@ pub fn c20_flags() {
     let m = sym::u8();
     sym::assume(m < 8);
     let (u, _, _) = any_card();
+    // priming call on an unrelated arbitrary input: a memo / cache in front of a pure function would show here
+    let _ = flagged(u, 7).strip_multiples_flags();
     let x = flagged(w, m);
     check!(x & 0x1FFF_FFFF == w, "only bits 29-31 change");
     check!(x >> 29 == m as u32, "exactly the requested marks are set (pair=bit29, trips=bit30, quads=bit31)");
